@@ -126,7 +126,10 @@ structure Rxn where
   inactProd : List (String × Nat) := []
   param : RateParam
 
-/-- a reaction system: `rsys.substances.keys()` (= the substances' names) and `rsys.rxns` -/
+/-- a reaction system: `rsys.substances.keys()` and `rsys.rxns`.  Both builders name the dependent variables by these KEYS
+    (`get_odesys`: `names = list(rsys.substances.keys())` since fix 0466445, before that `Substance.name`, which raised KeyError
+    for a substance registered under a key different from its name; `_create_odesys` always used the keys); `Substance.name`
+    only reaches `latex_names`, which is not part of the model. -/
 structure Sys where
   subst : List String
   rxns : List Rxn
